@@ -466,6 +466,24 @@ def proof_step(ctx, propfile, extra_targets=("Extract.vo",)):
     ass = parse_assumptions(out)
     res = {"ok": ok, "obligations": nobl, "discharged": nobl if ok else 0, "assumptions": ass, "log": out,
            "generated_hash": gh}
+    if ok and ctx.thorough() and not os.environ.get("VERIF_NO_COQCHK"):
+        # thorough tier: the independent checker re-checks the compiled property file and everything it depends on
+        t = time.time()
+        try:
+            r = run(["coqchk", "-silent", "-o", "-Q", ".", "Htp", "Htp.Props." + propfile], timeout=3000, cwd=COQ)
+            txt = r.stdout or ""
+            m = re.search(r"\* Axioms:\s*(.*?)\n\s*\n", txt, re.S)
+            axioms = (m.group(1).strip() if m else "?")
+            res["coqchk"] = {"rc": r.returncode, "axioms": axioms, "wall_s": round(time.time() - t, 1)}
+            ctx.cov["coqchk"] = res["coqchk"]
+            ctx.log("coqchk %s: rc=%d axioms=%s (%.0fs)" % (propfile, r.returncode, axioms, time.time() - t))
+            if r.returncode != 0 or axioms != "<none>":
+                res["ok"] = False
+                res["discharged"] = 0
+                res["log"] = out + "\ncoqchk:\n" + txt[-2000:]
+                ok = False
+        except subprocess.TimeoutExpired:
+            ctx.notes.append("coqchk did not finish within 3000 s (not counted as a failure)")
     if ok:
         ctx.log("proofs re-checked: %d statements in %s; assumptions: %s" % (nobl, propfile, sorted(set(ass))))
     else:
